@@ -265,6 +265,9 @@ structure Reader where
   allowIllegalReads : Bool := false
   deriving DecidableEq, Repr
 
+/-- `SetMaxReadFrameSize(v)`: clamped to `maxFrameSize = 1<<24 - 1`. -/
+def setMaxReadFrameSize (v : Nat) : Nat := if v > two24 - 1 then two24 - 1 else v
+
 /-- `checkFrameOrder`: `none` = connection error PROTOCOL_ERROR, else the new
 `lastHeaderStream`. -/
 def orderStep (last : Nat) (fh : FrameHeader) : Option Nat :=
@@ -339,8 +342,11 @@ structure HeadersParam where
   priority : Priority
   deriving DecidableEq, Repr
 
+/-- `v | 1<<31` on a `uint32` -/
+def orBit31 (v : Nat) : Nat := if (v / two31) % 2 = 1 then v else v + two31
+
 def prioBytes (p : Priority) : Bytes :=
-  be32 (p.streamDep + b2n p.exclusive two31) ++ [u8 p.weight]
+  be32 (if p.exclusive then orBit31 p.streamDep else p.streamDep) ++ [u8 p.weight]
 
 def writeHeaders (allowIllegal : Bool) (p : HeadersParam) : Except WErr Bytes :=
   if !validStreamID p.streamID && !allowIllegal then .error .streamID else
